@@ -386,13 +386,20 @@ fn bits_case(mk: &ExpectationMaker, prop: &str, qs: &[Q], m: usize, bits: &str) 
 
 /// the same matrix realised with real `regex` rules over distinct line texts
 fn regex_case(mk: &ExpectationMaker, prop: &str, qs: &[Q], m: usize, bits: &str) -> CaseRec {
-    let text = |j: usize| format!("line{j}x");
+    regex_case_with(mk, prop, qs, m, bits, false)
+}
+
+/// `self_anchored`: the lines are prefixes of one another (`a`, `aa`, `aaa`, ..) and the expression is written with its
+/// own anchors around a top-level alternation (`^a|aaa$`): as a regular expression for the WHOLE line that still means
+/// "one of the alternatives", whereas unwrapped it would accept every line that merely starts or ends like one
+fn regex_case_with(mk: &ExpectationMaker, prop: &str, qs: &[Q], m: usize, bits: &str, self_anchored: bool) -> CaseRec {
+    let text = |j: usize| if self_anchored { "a".repeat(j + 1) } else { format!("line{j}x") };
     let exps: Vec<Expectation> = qs
         .iter()
         .enumerate()
         .map(|(i, q)| {
             let alts: Vec<String> = (0..m).filter(|j| bits.as_bytes()[i * m + j] == b'1').map(text).collect();
-            let re = if alts.is_empty() { "nomatch".to_string() } else { format!("(?:{})", alts.join("|")) };
+            let re = if alts.is_empty() { "nomatch".to_string() } else if self_anchored { format!("^{}$", alts.join("|")) } else { format!("(?:{})", alts.join("|")) };
             parse_cached(mk, format!("{} (regex{})", re, q_suffix(*q)))
         })
         .collect();
@@ -403,7 +410,7 @@ fn regex_case(mk: &ExpectationMaker, prop: &str, qs: &[Q], m: usize, bits: &str)
     }
     let mtf = |i: usize, j: usize| bits.as_bytes()[i * m + j] == b'1';
     let ev = eval_nl(exps, qs, &out, &mtf, true);
-    CaseRec { op: op_line(qs, m, bits), nontrivial: nontrivial(qs, bits), tags: vec!["realised=regex".into()], impl_out: ev.impl_out, oracle_fail: filter_fails(prop, ev.fails) }
+    CaseRec { op: op_line(qs, m, bits), nontrivial: nontrivial(qs, bits), tags: vec![if self_anchored { "realised=regex-self-anchored".into() } else { "realised=regex".into() }], impl_out: ev.impl_out, oracle_fail: filter_fails(prop, ev.fails) }
 }
 
 /// random expectations of the real kinds against a nearly matching output; the matrix is what
@@ -610,6 +617,11 @@ pub fn run(ctx: &Ctx, prop: &str) {
         let mk = maker();
         let (qs, m, bits) = decode(&rsc, idx);
         Some(regex_case(&mk, prop, &qs, m, &bits))
+    });
+    ctx.run_stream("regex-self-anchored-exhaustive", rtotal, true, |idx| {
+        let mk = maker();
+        let (qs, m, bits) = decode(&rsc, idx);
+        Some(regex_case_with(&mk, prop, &qs, m, &bits, true))
     });
     // newline splitting: all strings over {a, LF, CR} up to length 7, plus random bytes
     let mut soff = vec![];
